@@ -75,6 +75,8 @@ class Vc:
         self.alias_param = kw.get("alias_param") # aliases caller-owned storage
         self.random = kw.get("random", False)
         self.normalised_by = None
+        self.zero = kw.get("zero", False)        # known to be the zero vector on this path
+        self.lab_index = None                    # AST of the index of the single non-zero lab component
 
     def __repr__(self):
         return "Vec#%d(%s%s%s%s)" % (self.id, "unit " if self.unit else "", "equivariant " if self.eq else "lab ",
@@ -106,9 +108,16 @@ class FrameResult:
         self.vecs: Dict[int, Vc] = {}
         self.rel: Dict[str, Poly] = {}
         self.ret_node = None
+        self.zero_normalised: List[Tuple[ast.AST, str]] = []
 
     def unit_status(self, v: Vc) -> Tuple[Optional[bool], str]:
         """(True proven / False refuted / None unknown, explanation)."""
+        for st, vid in self.zero_normalised:
+            if vid == v.id:
+                return False, "`%s` normalises a vector that is exactly zero on this path (0/0 = NaN)" % norm(st)
+        for st, vid in self.zero_normalised:
+            if vid in (v.cross or ()):
+                return False, "built from a vector whose normalisation divides 0 by 0 (`%s`)" % norm(st)
         if v.unit:
             return True, "normalised / cross product of perpendicular unit vectors"
         if v.comps is not None:
@@ -312,8 +321,11 @@ class FrameInterp:
             b = self._coerce_vec(b, e.args[1])
             if isinstance(a, Vc) and isinstance(b, Vc):
                 unit = a.unit and b.unit and (b.id in a.perp or a.id in b.perp)
-                return self._track(Vc(unit=unit, eq=a.eq and b.eq, perp={a.id, b.id}, cross=(a.id, b.id),
-                                      fresh=True, origin=norm(e), random=a.random or b.random))
+                w = self._track(Vc(unit=unit, eq=a.eq and b.eq, perp={a.id, b.id}, cross=(a.id, b.id),
+                                   fresh=True, origin=norm(e), random=a.random or b.random,
+                                   zero=a.zero or b.zero))
+                w.lab_partner = b if b.lab_index is not None else (a if a.lab_index is not None else None)
+                return w
             return self._track(Vc(eq=False, fresh=True, origin=norm(e)))
         if nm in ("array", "asarray") and e.args:
             v = self.ev(e.args[0])
@@ -350,7 +362,9 @@ class FrameInterp:
             return Sc(None)
         if nm in ("rand", "random", "normal", "uniform", "randn", "random_sample"):
             return self._track(Vc(eq=False, fresh=True, random=True, origin=norm(e)))
-        if nm in ("zeros", "ones", "eye", "zeros_like"):
+        if nm in ("zeros", "zeros_like"):
+            return self._track(Vc(eq=False, fresh=True, origin=norm(e), zero=True))
+        if nm in ("ones", "eye"):
             return self._track(Vc(eq=False, fresh=True, origin=norm(e)))
         if nm in ("any", "all", "allclose", "isclose", "abs", "argmin", "argmax", "fabs"):
             return Sc(None, invariant=False)
@@ -419,6 +433,8 @@ class FrameInterp:
         if vanished:
             self.res.degenerate = True
             self.res.degenerate_tests.append(norm(test))
+            if isinstance(v, Vc):
+                v.zero = True
 
     def stmt(self, st):
         if isinstance(st, ast.Assign) and len(st.targets) == 1:
@@ -454,6 +470,10 @@ class FrameInterp:
                 self._inplace(st, v, "item store")
                 if isinstance(v, Vc):
                     v.unit, v.comps, v.eq = False, None, False
+                    if isinstance(st.value, ast.Constant) and isinstance(st.value.value, (int, float)) and st.value.value != 0:
+                        if v.zero:
+                            v.lab_index = t.slice
+                        v.zero = False
                 return
         if isinstance(st, ast.AugAssign) and isinstance(st.target, ast.Name):
             cur = self.env.get(st.target.id)
@@ -463,6 +483,8 @@ class FrameInterp:
                     n_arg = _is_norm_call(st.value)
                     sc = self.ev(st.value)
                     if (n_arg is not None and self.ev(n_arg) is cur) or (isinstance(sc, Sc) and sc.kind == "norm" and sc.of is cur):
+                        if cur.zero:
+                            self.res.zero_normalised.append((st, cur.id))
                         cur.unit = True
                         cur.normalised_by = norm(st.value)
                         self._unit_rel(cur)
